@@ -124,7 +124,7 @@ func checkCipherSuiteParser(c *Ctx, r *Report, parser *ssa.Function) {
 	data := parser.Params[0]
 	loops := viewLoops(parser)
 
-	r.Rule("parser-errors", "every error return of the record parser carries a nil slice, never a partial list", 4)
+	r.Rule("parser-errors", "every error return of the record parser carries a nil slice, never a partial list", 3)
 	// per feasible path of the parser's flattened view: whichever statement produced the error
 	// (in the parser or in a helper that decodes part of a record), the list returned with it
 	// is nil. One obligation per error-producing construct.
@@ -199,6 +199,12 @@ func checkCipherSuiteParser(c *Ctx, r *Report, parser *ssa.Function) {
 		for _, o := range viewOrigins(parser, y) {
 			k, isK := constInt(o)
 			if !isK {
+				// a field of an element of a read-only package-level table selected by a computed
+				// index (`formats[b&1].minLength`): every element's value is a possible constant
+				if tk, isT := tableFieldConsts(c, o); isT {
+					ks = append(ks, tk...)
+					continue
+				}
 				allK = false
 				break
 			}
@@ -431,7 +437,7 @@ func checkCipherSuiteParser(c *Ctx, r *Report, parser *ssa.Function) {
 				if call, ok := in.(*ssa.Call); ok {
 					if bi, ok := call.Call.Value.(*ssa.Builtin); ok && bi.Name() == "append" && innermostLoop(loops, b) == l {
 						if sl, ok := call.Type().(*types.Slice); ok {
-							if n, ok := sl.Elem().(*types.Named); ok && (n.Obj().Name() == "IntegrityAlgorithm" || n.Obj().Name() == "ConfidentialityAlgorithm") && !appendsConst(call) {
+							if n, ok := sl.Elem().(*types.Named); ok && (n.Obj().Name() == "IntegrityAlgorithm" || n.Obj().Name() == "ConfidentialityAlgorithm") && !appendsConst(call) && !appendsConstIn(parser, call) {
 								hasApp = true
 							}
 						}
@@ -1386,4 +1392,108 @@ func flipOp(op token.Token) token.Token {
 		return token.LEQ
 	}
 	return op
+}
+
+
+// tableFieldConsts: v is a load of field f of table[i] for a read-only package-level array or
+// slice `table` of the module: the integer values f takes over all elements.
+func tableFieldConsts(c *Ctx, v ssa.Value) ([]int64, bool) {
+	ld, ok := stripConv(v).(*ssa.UnOp)
+	if !ok || ld.Op != token.MUL {
+		return nil, false
+	}
+	var fields []string
+	addr := ld.X
+	for i := 0; i < 8; i++ {
+		fa, ok := addr.(*ssa.FieldAddr)
+		if !ok {
+			break
+		}
+		f := structField(fa.X.Type(), fa.Field)
+		if f == nil {
+			return nil, false
+		}
+		fields = append([]string{f.Name()}, fields...)
+		addr = fa.X
+	}
+	ia, ok := addr.(*ssa.IndexAddr)
+	if !ok {
+		return nil, false
+	}
+	var g *ssa.Global
+	switch b := ia.X.(type) {
+	case *ssa.Global:
+		g = b
+	case *ssa.UnOp:
+		g, _ = b.X.(*ssa.Global)
+	}
+	if g == nil {
+		return nil, false
+	}
+	gv := globalValAP(c, AP{Root: g})
+	if gv == nil || gv.Kind != "slice" {
+		return nil, false
+	}
+	var out []int64
+	for _, el := range gv.Elems {
+		cur := el
+		for _, f := range fields {
+			if cur == nil || cur.Kind != "struct" {
+				return nil, false
+			}
+			nx, has := cur.Fields[f]
+			if !has {
+				nx = &GVal{Kind: "zero"}
+			}
+			cur = nx
+		}
+		if cur.Kind == "zero" {
+			out = append(out, 0)
+			continue
+		}
+		k, isK := cur.Int()
+		if !isK {
+			return nil, false
+		}
+		out = append(out, k)
+	}
+	return out, true
+}
+
+
+// appendsConstIn: append(s, x) with one element whose value is a constant at every place it
+// can come from in root's view (a helper's parameter bound to constants at its call sites).
+func appendsConstIn(root *ssa.Function, call *ssa.Call) bool {
+	sl, ok := call.Call.Args[1].(*ssa.Slice)
+	if !ok {
+		return false
+	}
+	al, ok := sl.X.(*ssa.Alloc)
+	if !ok {
+		return false
+	}
+	n := 0
+	for _, ref := range *al.Referrers() {
+		ia, ok := ref.(*ssa.IndexAddr)
+		if !ok {
+			continue
+		}
+		for _, r2 := range *ia.Referrers() {
+			st, ok := r2.(*ssa.Store)
+			if !ok {
+				continue
+			}
+			n++
+			os := viewOrigins(root, st.Val)
+			if len(os) == 0 {
+				return false
+			}
+			for _, o := range os {
+				if _, isC := stripConv(o).(*ssa.Const); !isC {
+					return false
+				}
+			}
+		}
+	}
+	return n == 1
 }
